@@ -96,8 +96,9 @@ class Runner:
         self.n += 1
         proxy = self.server.env["proxy"]
         gate = wh.Gate() if gated else None
-        proxy.gate = gate
-        acc.count("sequences.gated" if gated else "sequences.ungated")
+        late = gated == "late"   # the cleanup delay outlives the reconnect: it is released only when the server
+        proxy.gate = gate        # turns out to be waiting for it (no reply within 40 ms), or at the next reconnect
+        acc.count("sequences.gated-late" if late else "sequences.gated" if gated else "sequences.ungated")
         sid = "%064x" % (self.ctx.rng.getrandbits(255) + 1)
         model = Model()
         trace = []
@@ -113,7 +114,7 @@ class Runner:
             conn = await wh.RawConn(self.server.uri, sid).open()
             trace.append(["init", conn.init_state])
             acc.count("events.init")
-            if gate is not None:
+            if gate is not None and not late:
                 acc.count("cleanup_delays_released_after_reconnect", gate.release_all())
             acc.add("pairs", f"{model.state}:connect")
             if conn.init_state != model.state:
@@ -151,7 +152,20 @@ class Runner:
                 if expected is None:
                     trace.append([sym, "no-reply-expected"])
                     continue
-                ev = await conn.next_event(6)
+                if late:
+                    # no reply within 40 ms: the server may be waiting for a predecessor's cleanup delay (which can
+                    # reach the gate at any moment) - release whatever is pending and keep waiting, up to 6 s in all
+                    ev = None
+                    for _ in range(150):
+                        try:
+                            ev = await conn.next_event(0.04)
+                            break
+                        except wh.Timeout:
+                            acc.count("cleanup_delays_released_because_server_waited", gate.release_all())
+                    if ev is None:
+                        raise wh.Timeout()
+                else:
+                    ev = await conn.next_event(6)
                 got = None
                 if ev[0] == "closed":
                     got = "refused"
@@ -187,6 +201,11 @@ class Runner:
                             return
                     else:
                         got = (verdict, t)
+                if late and gate.pending():
+                    # one delayed cleanup (the oldest) ends now, while the current connection is still open
+                    if gate.release_one():
+                        acc.count("cleanup_delays_released_one_by_one")
+                        await asyncio.sleep(0.002)
                 trace.append([sym, got if not isinstance(got, tuple) else list(got)])
                 if got != expected:
                     viol(f"trace-mismatch:state{self._state_before(model, sym, expected)}:{sym}",
@@ -272,8 +291,12 @@ async def amain(spec, acc, ctx, virtual=True):
                         await server.stop()
                         return
                     await retry_on_timeout(acc, lambda: r.run_sequence(pre + list(rest), gated=False))
-                    if "re" in pre + list(rest) or any(x in ("c1", "c2", "u1", "u2", "un") for x in pre + list(rest)):
-                        await retry_on_timeout(acc, lambda: r.run_sequence(pre + list(rest), gated=True))
+                    sq = pre + list(rest)
+                    if "re" in sq or any(x in ("c1", "c2", "u1", "u2", "un") for x in sq):
+                        await retry_on_timeout(acc, lambda: r.run_sequence(sq, gated=True))
+                    if any(a == "re" and b in ("c1", "c2", "u1", "u2", "s") for a, b in zip(sq, sq[1:])) and \
+                            any(x in ("c1", "u1", "u2", "c2") for x in sq[:sq.index("re")]):
+                        await retry_on_timeout(acc, lambda: r.run_sequence(sq, gated="late"))
         acc.add("exhaustive_prefixes", "".join(pre))
     elif kind == "rand":
         for i in range(spec["sequences"]):
@@ -281,7 +304,7 @@ async def amain(spec, acc, ctx, virtual=True):
                 break
             n = ctx.rng.randint(4, 12)
             sq = [ctx.rng.choice(SYMS) for _ in range(n)]
-            await retry_on_timeout(acc, lambda: r.run_sequence(sq, gated=bool(i % 2)))
+            await retry_on_timeout(acc, lambda: r.run_sequence(sq, gated=[False, True, "late"][i % 3]))
     await server.stop()
 
 
@@ -310,6 +333,7 @@ def replay(case, acc, ctx):
         r = Runner(acc, ctx, server, Fixture(ctx.rng))
         await r.run_sequence(case["sequence"], gated=False)
         await r.run_sequence(case["sequence"], gated=True)
+        await r.run_sequence(case["sequence"], gated="late")
         await server.stop()
     asyncio.run(go())
     acc.count("replayed")
@@ -346,6 +370,7 @@ def finish(m, tier, seed):
         "disk_checks": c.get("disk_checks", 0),
         "sequences_with_reconnect_inside_cleanup_delay": c.get("sequences.gated", 0),
         "sequences_with_reconnect_after_cleanup": c.get("sequences.ungated", 0),
+        "sequences_with_cleanup_delay_outliving_the_reconnect": c.get("sequences.gated-late", 0),
         "realtime_sequences": c.get("realtime_sequences", 0),
     }
     return {"coverage": cov, "inconclusive": inc,
